@@ -1,6 +1,6 @@
 (* Proofs for C01 (osu!mania codec): arithmetic of the column<->x mapping,
    code<->value inverses, int() truncation (bounds, idempotence, no drift), line-level codec theorems,
-   metadata values (text after the first colon).  Whole-file statements: see the _partial remarks at the end. *)
+   metadata values (text after the first colon).  Whole-file theorems: Proofs/OsuRead.v, OsuWrite.v, OsuWhole.v. *)
 From Coq Require Import String Ascii.
 From Coq Require Import ZArith QArith Qround Qabs List Bool Lia Lqa Qfield.
 From RV Require Import Base.PyNum Base.Text Formats.Osu Formats.OsuSpec.
@@ -597,19 +597,12 @@ Proof.
 Qed.
 
 (* ------------------------------------------------------------------ whole files
-   read_denotes / write_wf / write_denotes / read_write_read / write_read_write at FILE level remain
-   _partial.  Proved above, for all inputs: the section split (section_split: the model's index/slices =
-   the specification's sections), reader = osu_denote on every classified timing-point / SV / hit / hold
-   line (read_bpm_denotes, read_sv_denotes, read_hit_denotes, read_hold_denotes), one step of the
-   metadata loop (meta_line_cut: model key/value = format key/value on every line), classification,
-   read-back and generation equality of written note lines, column and code arithmetic, truncation.
-   Still missing for the file-level statements: (1) lifting the line theorems through filter/omap to the
-   lists (needs: every non-blank line of a list section is classified, i.e. wf_read_text), (2) the
-   30-key metadata loop against denote_key (induction over the lines with meta_line_cut as the step;
-   plus background/sample events), (3) float printing: bpm / SV / float attributes are written by
-   repr / ':g', an oracle, so the written text is not a function of the model alone.
-   These are covered on every run by the in-Coq correspondence (Corr/RunC01.v) where osu_denote and
-   wf_osu_text are EVALUATED on the implementation's outputs. *)
+   The FILE-level theorems (read_denotes, write_wf, write_denotes, read after write, generation stability) are proved
+   in Proofs/OsuRead.v, Proofs/OsuWrite.v and Proofs/OsuWhole.v (text lemmas in Proofs/OsuText.v) on the boolean domains
+   read_domain / write_domain of Formats/OsuSpec.v, with the float printers as explicit oracle parameters.  They are
+   built from the line-level theorems above (lifted through filter / omap to the list sections), the 30-key metadata
+   loop against denote_key (step = meta_line_cut), background / sample events, and section_split.
+   The two computed examples below use a printer of integers only and are kept as they were. *)
 
 (* a complete concrete instance, computed: chart -> model writer (numeric tokens rendered by a concrete
    printer of integers) -> reference semantics *)
